@@ -39,6 +39,9 @@ def prepopulate(rng, dest, torrents):
                 continue
             with open(path, "wb") as fd:
                 fd.write(content)
+            if rng.random() < 0.5:
+                os.utime(path, (1_000_000_000, 1_000_000_000))      # much older than the sources
+                k += "-old"
             kinds.append(k)
     if rng.random() < 0.5:
         os.makedirs(os.path.join(dest, "other"), exist_ok=True)
